@@ -1394,6 +1394,13 @@ closerLoop:
 			// Remove any delimiters between the opener and closer from the delimiter stack.
 			state.stack = deleteDelimiterStack(state.stack, openerIndex+1, currentPosition)
 			currentPosition = openerIndex + 1
+			// The delimiters above the opener are gone:
+			// search bounds that pointed into them must not point past the opener.
+			for i := range openersBottom {
+				if openersBottom[i] > openerIndex {
+					openersBottom[i] = openerIndex
+				}
+			}
 
 			// If either the opening or the closing text nodes became empty,
 			// remove them from the tree.
@@ -1855,7 +1862,7 @@ type delimiterStackElement struct {
 	node  *Inline
 }
 
-const openersBottomCount = 9
+const openersBottomCount = 14
 
 func (elem delimiterStackElement) openersBottomIndex() int {
 	switch elem.typ {
@@ -1866,11 +1873,15 @@ func (elem delimiterStackElement) openersBottomIndex() int {
 			return 3 + elem.n%3
 		}
 	case inlineDelimiterUnderscore:
-		return 6
+		if elem.flags&openerFlag == 0 {
+			return 6 + elem.n%3
+		} else {
+			return 9 + elem.n%3
+		}
 	case inlineDelimiterLink:
-		return 7
+		return 12
 	case inlineDelimiterImage:
-		return 8
+		return 13
 	default:
 		panic("unreachable")
 	}
